@@ -13,12 +13,14 @@ ENGINES = {
     "C01": "cli:C01",
     "C02": "cli:C02",
     "C09": "cli:C09",
+    "C11": "vlan",
     "C12": "pool",
     "C20": "history",
 }
 MODULES = {
     "pool": "annetsim.engines.pool",
     "cli": "annetsim.engines.cli",
+    "vlan": "annetsim.engines.vlan",
     "history": "annetsim.engines.history",
 }
 
